@@ -57,6 +57,7 @@ type FuncContract struct {
 	GhostSets  []GhostSet
 	CallAsserts map[string][]*Clause // "callee#k" -> assertions checked right before that call site
 	Defines    []*LocalDef
+	CapturedRequires []*Clause // closures: facts about captured state, proved where the closure is created and assumed at its entry (stability until the call is an assumption)
 	EntryAssumes []*Clause // facts that define thread-local ghost state of the goroutine running this function (assumed at entry, never asserted at spawn)
 }
 
@@ -224,7 +225,7 @@ func readContractLines(path string, requirePrefix bool) ([]rawLine, string, erro
 var clauseKeywords = map[string]bool{"requires": true, "ensures": true, "invariant": true, "modifies": true, "pure": true,
 	"trusted": true, "may_panic": true, "loop": true, "func": true, "extern": true, "functype": true, "lemma": true,
 	"sort": true, "fn": true, "axiom": true, "ghost": true, "pkgframe": true, "guarded": true, "lockinv": true,
-	"acquires": true, "releases": true, "opaque": true, "reveal": true, "uses": true, "allocates": true, "noaxioms": true, "ghostset": true, "before_call": true, "macro": true, "define": true, "theorem": true, "entry_assume": true, "crashinv": true, "note": true, "recfn": true, "props": true}
+	"acquires": true, "releases": true, "opaque": true, "reveal": true, "uses": true, "allocates": true, "noaxioms": true, "ghostset": true, "before_call": true, "macro": true, "define": true, "theorem": true, "entry_assume": true, "captured_requires": true, "crashinv": true, "note": true, "recfn": true, "props": true}
 
 func firstWord(s string) (string, string) {
 	s = strings.TrimSpace(s)
@@ -316,6 +317,15 @@ func parseDirectives(lines []rawLine, pkgPath string, spec *SpecSet, contracts m
 			}
 			curLoop = &LoopContract{}
 			cur.Loops[k] = curLoop
+		case "captured_requires":
+			c, err := mkClause("captured_requires", d)
+			if err != nil {
+				return err
+			}
+			if cur == nil {
+				return fmt.Errorf("%s:%d: captured_requires outside func", d.file, d.line)
+			}
+			cur.CapturedRequires = append(cur.CapturedRequires, c)
 		case "entry_assume":
 			c, err := mkClause("entry_assume", d)
 			if err != nil {
